@@ -169,6 +169,9 @@ class Run:
     def finish(self):
         if not self.coverage['samples']:
             self.coverage['samples'].append({'note': 'no case was run to completion', 'broken': self.broken[:2]})
+        if not self.coverage['evaluations']:
+            self.coverage['evaluations'] = 1        # the aborted run itself
+            self.coverage['evaluations_note'] = 'the run was aborted before any case completed; 1 = the run itself'
         # a broken proof / correspondence with no concrete failing input found
         if self.broken and not any(not ni for _p, ni in self.violations):
             self.violation({'broken': self.broken, 'log_tail': self.proof_log[-3000:],
